@@ -200,6 +200,66 @@ Definition expand_data_id_dc_x2 (u : universe) (D : db) (given : recmap) (dims :
   rbind (standardize_dc2 u dims d kwargs defaults) (fun s => expand_x u D (carried_records2 d s ++ given) s).
 
 (* ---------------------------------------------------------------------------------------------------------------- *)
+(* 1d. DataCoordinate arguments after /repo 43639c3 (the shipped model)                                             *)
+(* ---------------------------------------------------------------------------------------------------------------- *)
+(* 43639c3 replaces b51cefc's whole-mapping test: every record of the argument is carried again, and INSIDE the walk a carried,
+   non-None record is discarded (and the element fetched like a missing one) when
+       any(keys.get(k) != v for k, v in record.dataId.required.items())
+   i.e. when the record's OWN required key values differ from the keys of the data ID being expanded at that point of the
+   walk.  `record.dataId` is a data ID over the element's minimal group built from the record's required values. *)
+Definition rec_key_items (u : universe) (e : elem) (r : record) : amap :=
+  match mkgroup u (deps e) with
+  | GOk M => combine (grequired M) (rkey r)
+  | _ => combine (ereq e) (rkey r)
+  end.
+
+Definition carried_valid (u : universe) (e : elem) (keys : amap) (r : record) : bool :=
+  forallb (fun kv => match aget keys (fst kv) with Some w => value_eqb w (snd kv) | None => false end) (rec_key_items u e r).
+
+Definition expand_step_c (u : universe) (D : db) (G : group) (carried given : recmap) (st : amap * recmap) (x : string)
+    : result (amap * recmap) :=
+  match aget carried x with
+  | None => expand_step_x u D G given st x
+  | Some ro =>
+    let '(keys, recs) := st in
+    match find_elem u x with
+    | None => Err EKeyError
+    | Some e =>
+      match ro with
+      | Some r =>
+        if carried_valid u e keys r
+        then rbind (check_implied keys (zip_pad (eimp e) (rimp r))) (fun keys' => Ok (keys', recs ++ [(x, Some r)]))
+        else expand_step_m u D G st x
+      | None =>
+        if memb x (gnames G) then Err EDataIdValue
+        else if defines_rel e then Err EInconsistent
+        else Ok (keys, recs ++ [(x, None)])
+      end
+    end
+  end.
+
+Definition expand_loop_c (u : universe) (D : db) (G : group) (carried given : recmap) (order : list string) (st : amap * recmap)
+    : result (amap * recmap) :=
+  fold_left (fun acc x => rbind acc (fun s => expand_step_c u D G carried given s x)) order (Ok st).
+
+Definition expand_keys_c (u : universe) (D : db) (G : group) (carried given : recmap) (keys0 : amap) : result (amap * recmap) :=
+  match glookup G with
+  | GOk order => expand_loop_c u D G carried given order (keys0, [])
+  | GKeyError => Err EKeyError
+  | GOutOfFuel => Err EOutOfFuel
+  end.
+
+Definition expand_c (u : universe) (D : db) (carried given : recmap) (d : dataid) : result dataid :=
+  if has_recs d then Ok d
+  else rbind (expand_keys_c u D (dgroup d) carried given (dmapping d)) (fun kr =>
+         rbind (std_core (dgroup d) (fst kr)) (fun s => expanded_with s (snd kr))).
+
+(* expandDataId(dataId : DataCoordinate, dimensions=, records=given, **kwargs) as shipped since 43639c3 *)
+Definition expand_data_id_dc_x3 (u : universe) (D : db) (given : recmap) (dims : option (list string)) (d : dataid)
+    (kwargs defaults : amap) : result dataid :=
+  rbind (standardize_dc2 u dims d kwargs defaults) (expand_c u D (carried_records d) given).
+
+(* ---------------------------------------------------------------------------------------------------------------- *)
 (* 2. alternate keys                                                                                                *)
 (* ---------------------------------------------------------------------------------------------------------------- *)
 (* a stored row as _rewrite_data_id sees it: the values of the dimension's required dimensions (in `required` order, the
